@@ -2,6 +2,7 @@ SPECIFICATION Spec
 CHECK_DEADLOCK FALSE
 CONSTANTS
   MaxNodes = 3
+  Keys = {"a", "b"}
 INVARIANT PushDownKeeps
 INVARIANT BlockTransparent
 INVARIANT SiblingUntouched
